@@ -174,7 +174,7 @@ Qed.
 (* encodeXterm for a key of xtermKeymap: a function of the key code, Shift/Alt/Ctrl and the modes *)
 Definition special_bytes (kp ck : bool) (c m : Z) : list Z :=
   let xm := xterm_mods m in
-  match (if xm =? 0 then encode_plain c kp ck else None) with
+  match (if xm =? 0 then encode_plain_maps c kp ck else None) with
   | Some v => v
   | None =>
       if (c =? KeyTab) && (xm =? ModShift) then [27; 91; 90]
@@ -190,12 +190,26 @@ Proof.
   intros H. rewrite (Z.eqb_sym (fst e) c). destruct (c =? fst e); [discriminate|]. cbn in H. auto.
 Qed.
 
+(* every key of xtermKeymap is in one of the three unmodified tables, whatever the modes *)
+Lemma special_in_maps : forallb (fun c => forallb (fun kp => forallb (fun ck =>
+    match encode_plain_maps c kp ck with Some _ => true | None => false end) [true; false]) [true; false]) special_keys = true.
+Proof. vm_compute. reflexivity. Qed.
+
 Lemma encode_special u k kp ck : existsb (Z.eqb (k_code k)) special_keys = true ->
   encode_xterm u k kp ck = special_bytes kp ck (k_code k) (k_mods k).
 Proof.
-  intros H. apply existsb_lookup_kc in H.
-  unfold encode_xterm, special_bytes. cbv zeta.
-  destruct (if xterm_mods (k_mods k) =? 0 then _ else None); [reflexivity|].
+  intros H.
+  assert (Hin : In (k_code k) special_keys).
+  { apply existsb_exists in H. destruct H as (x & Hx & Hxe). apply Z.eqb_eq in Hxe. now subst. }
+  assert (Hmaps : exists v, encode_plain_maps (k_code k) kp ck = Some v).
+  { pose proof special_in_maps as T. rewrite forallb_forall in T. specialize (T _ Hin).
+    rewrite forallb_forall in T. specialize (T _ (bools_In kp)).
+    rewrite forallb_forall in T. specialize (T _ (bools_In ck)).
+    destruct (encode_plain_maps (k_code k) kp ck) as [v|]; [eauto|discriminate]. }
+  destruct Hmaps as (v & Hv).
+  apply existsb_lookup_kc in H.
+  unfold encode_xterm, special_bytes. cbv zeta. unfold encode_plain. rewrite Hv.
+  destruct (xterm_mods (k_mods k) =? 0); [reflexivity|].
   destruct (_ && _); [reflexivity|].
   destruct (lookup_kc xtermKeymap (k_code k)) as [[num fin]|]; [reflexivity|contradiction].
 Qed.
@@ -321,31 +335,38 @@ Lemma tables_beyond_unicode :
   forallb (fun e => MaxRune <? fst e) numericKeymap = true.
 Proof. vm_compute. repeat split; reflexivity. Qed.
 
-Lemma encode_plain_rune c kp ck : c < MaxRune -> encode_plain c kp ck = Some (utf8_enc c).
+Lemma encode_plain_maps_none c kp ck : c <= MaxRune -> encode_plain_maps c kp ck = None.
 Proof.
-  intros Hc. unfold encode_plain.
+  intros Hc. unfold encode_plain_maps.
   destruct tables_beyond_unicode as (T1 & T2 & T3 & T4 & T5).
-  assert (Hc' : c <= MaxRune) by (unfold MaxRune in *; lia).
-  rewrite (lookup_str_none keymap c T1 Hc').
+  rewrite (lookup_str_none keymap c T1 Hc).
   assert (E2 : lookup_str (if ck then cursorKeysApplicationMode else cursorKeysNormalMode) c = None)
     by (destruct ck; apply lookup_str_none; assumption).
-  assert (E3 : lookup_str (if kp then applicationKeymap else numericKeymap) c = None)
-    by (destruct kp; apply lookup_str_none; assumption).
-  rewrite E2, E3. apply Z.ltb_lt in Hc. rewrite Hc. reflexivity.
+  rewrite E2. destruct kp; apply lookup_str_none; assumption.
 Qed.
 
-(* no Shift/Alt/Ctrl: the key code is sent, whatever the text *)
-Lemma encode_unmodified u k kp ck : xterm_mods (k_mods k) = 0 -> k_code k < MaxRune ->
+(* no Shift/Alt/Ctrl and no text: the key code is sent *)
+Lemma encode_unmodified u k kp ck : xterm_mods (k_mods k) = 0 -> k_code k < MaxRune -> k_text k = [] ->
   encode_xterm u k kp ck = utf8_enc (k_code k).
 Proof.
-  intros Hm Hc. unfold encode_xterm. cbv zeta. rewrite Hm. cbn [Z.eqb].
-  rewrite (encode_plain_rune _ kp ck Hc). reflexivity.
+  intros Hm Hc Ht. unfold encode_xterm. cbv zeta. rewrite Hm. cbn [Z.eqb].
+  unfold encode_plain. rewrite encode_plain_maps_none by lia. rewrite Ht.
+  apply Z.ltb_lt in Hc. rewrite Hc. reflexivity.
+Qed.
+
+(* no Shift/Alt/Ctrl and some text: the text is sent *)
+Lemma encode_unmodified_text u k kp ck : xterm_mods (k_mods k) = 0 -> k_code k <= MaxRune -> k_text k <> [] ->
+  encode_xterm u k kp ck = utf8 (k_text k).
+Proof.
+  intros Hm Hc Ht. unfold encode_xterm. cbv zeta. rewrite Hm. cbn [Z.eqb].
+  unfold encode_plain. rewrite encode_plain_maps_none by lia.
+  destruct (k_text k); [contradiction|reflexivity].
 Qed.
 
 (* ================= chords with text: unmodified and Shift ================= *)
 Definition oracle_ok (u : uni) : Prop :=
   u_upper u 127 = false /\ (forall r, u_upper u r = true -> u_tolower u r <> 127) /\
-  (forall c, 97 <= c <= 122 -> u_lower u c = true).
+  (forall c, 0 <= c <= 127 -> u_lower u c = in_range c 97 122).
 
 Lemma host_read_printed u seg r : seg [r] = [[r]] -> 32 <= r -> rune_valid r = true ->
   host_read u seg (utf8_enc r) = [HKey (decode_key u (SPrint [r]))].
@@ -406,20 +427,8 @@ Lemma encode_chord_plain u k kp ck : xterm_mods (k_mods k) = 0 -> 32 <= k_code k
 Proof.
   intros Hm Hr Hv Ht.
   assert (Hle : k_code k <= MaxRune) by (unfold rune_valid, MaxRune in *; lia).
-  destruct (Z.eq_dec (k_code k) MaxRune) as [He|Hne].
-  - unfold encode_xterm. cbv zeta. rewrite Hm. cbn [Z.eqb].
-    unfold encode_plain. destruct tables_beyond_unicode as (T1 & T2 & T3 & T4 & T5).
-    rewrite (lookup_str_none keymap _ T1 Hle).
-    replace (lookup_str (if ck then cursorKeysApplicationMode else cursorKeysNormalMode) (k_code k)) with (@None (list Z))
-      by (symmetry; destruct ck; apply lookup_str_none; assumption).
-    replace (lookup_str (if kp then applicationKeymap else numericKeymap) (k_code k)) with (@None (list Z))
-      by (symmetry; destruct kp; apply lookup_str_none; assumption).
-    replace (k_code k <? MaxRune) with false by lia.
-    replace (k_code k =? KeyTab) with false by (unfold KeyTab; lia). cbn [andb].
-    rewrite (lookup_kc_none _ Hle). rewrite Ht.
-    destruct (xterm_mods_zero _ Hm) as [Hc Ha]. rewrite Hc, Ha. cbn [negb andb Z.eqb].
-    apply utf8_single.
-  - apply encode_unmodified; [assumption|lia].
+  rewrite encode_unmodified_text; [|assumption|assumption|rewrite Ht; discriminate].
+  rewrite Ht. apply utf8_single.
 Qed.
 
 Lemma zlist_eqb_eq : forall a b, zlist_eqb a b = true -> a = b.
@@ -528,16 +537,28 @@ Qed.
 Lemma i32_small x : 0 <= x < 2147483648 -> i32 x = x.
 Proof. intros H. unfold i32. cbv zeta. rewrite Z.mod_small by lia. replace (x <? 2147483648) with true by lia. reflexivity. Qed.
 
-Lemma encode_ctrl u k kp ck : xterm_mods (k_mods k) = ModCtrl -> Z.land (k_mods k) ModAlt = 0 -> Z.land (k_mods k) ModCtrl = 4 ->
-  97 <= k_code k <= 122 -> u_lower u (k_code k) = true -> encode_xterm u k kp ck = [k_code k - 96].
+(* Ctrl + an ASCII character: a function of the key code *)
+Definition ctrl_bytes (c : Z) : list Z :=
+  if in_range c 97 122 then fmt_c (i32 (c - 96))
+  else match lookup_ctrl ctrlSwitch c with
+       | Some (Some w) => fmt_c w
+       | Some None => []
+       | None => fmt_c (i32 (c - ctrlDefaultOffset))
+       end.
+
+Lemma encode_ctrl u k kp ck : oracle_ok u ->
+  xterm_mods (k_mods k) = ModCtrl -> Z.land (k_mods k) ModAlt = 0 -> Z.land (k_mods k) ModCtrl = 4 ->
+  32 <= k_code k <= 126 -> encode_xterm u k kp ck = ctrl_bytes (k_code k).
 Proof.
-  intros Hm Ha Hc Hr Hl. unfold encode_xterm. cbv zeta. rewrite Hm. cbn [Z.eqb ModCtrl].
+  intros (_ & _ & Hlow) Hm Ha Hc Hr. unfold encode_xterm. cbv zeta. rewrite Hm. cbn [Z.eqb ModCtrl].
   replace (k_code k =? KeyTab) with false by (unfold KeyTab; lia). cbn [andb].
   rewrite (lookup_kc_none (k_code k)) by (unfold MaxRune; lia).
   rewrite Hc. cbn [Z.eqb]. rewrite andb_false_r. cbn [andb].
   unfold encode_buf. replace (k_code k <? MaxRune) with true by (unfold MaxRune; lia).
   cbv zeta. change (land_ne0 ModCtrl ModAlt) with false. change (land_ne0 ModCtrl ModCtrl) with true. cbv iota.
-  rewrite Hl. unfold utf8_enc. rewrite i32_small by lia. rewrite fmt_c_ascii by lia. reflexivity.
+  rewrite Hlow by lia. unfold ctrl_bytes, utf8_enc. cbn [app].
+  destruct (in_range (k_code k) 97 122); [reflexivity|].
+  destruct (lookup_ctrl ctrlSwitch (k_code k)) as [[w|]|]; reflexivity.
 Qed.
 
 Lemma encode_backtab u k kp ck : xterm_mods (k_mods k) = ModShift -> k_code k = KeyTab ->
@@ -547,11 +568,16 @@ Proof.
 Qed.
 
 Definition alt_chars : list Z := filter alt_char (zrange 48 80).
-Definition ctrl_letters : list Z := filter ctrl_letter (zrange 97 26).
+Definition ctrl_chars : list Z := filter ctrl_char (zrange 32 95).
 
 Lemma alt_all : table_check alt_chars (fun c _ => [27; c]) (fun m => Z.ldiff m 192 =? ModAlt) = true.
 Proof. vm_compute. reflexivity. Qed.
-Lemma ctrl_all : table_check ctrl_letters (fun c _ => [c - 96]) (fun m => Z.ldiff m 192 =? ModCtrl) = true.
+Lemma ctrl_all : table_check ctrl_chars (fun c _ => ctrl_bytes c) (fun m => Z.ldiff m 192 =? ModCtrl) = true.
+Proof. vm_compute. reflexivity. Qed.
+
+(* the C0 codes are xterm's, for every ASCII character xterm maps *)
+Lemma ctrl_codes_table :
+  forallb (fun c => match xterm_ctrl_code c with Some b => zlist_eqb (ctrl_bytes c) [b] | None => true end) (zrange 32 95) = true.
 Proof. vm_compute. reflexivity. Qed.
 Lemma c0_all : table_check [KeyTab; KeyEnter; KeyEsc] (fun c _ => [c]) (fun m => Z.ldiff m 192 =? 0) = true.
 Proof. vm_compute. reflexivity. Qed.
@@ -581,16 +607,31 @@ Qed.
 Lemma ctrl_roundtrip u seg k md : oracle_ok u -> mods_in_scope k = true -> chord_ctrl k = true ->
   roundtrip_ok u k (forward u seg md (TKey k)) = true.
 Proof.
-  intros (_ & _ & Hlow) Hsc Hp. destruct (scope_split k Hsc) as [Hr H56]. destruct (mods_facts _ Hr H56) as (Hx & Hs2 & _ & Hctl & Halt).
+  intros Ho Hsc Hp. destruct (scope_split k Hsc) as [Hr H56]. destruct (mods_facts _ Hr H56) as (Hx & Hs2 & _ & Hctl & Halt).
   unfold chord_ctrl, chord_mods in Hp. apply andb_true_iff in Hp. destruct Hp as [Hm Hc].
   assert (Hm0 : Z.ldiff (k_mods k) 192 = 4) by (unfold ModCtrl in *; lia).
-  assert (Hrange : 97 <= k_code k <= 122) by (unfold ctrl_letter, in_range in Hc; lia).
-  assert (Hin : In (k_code k) ctrl_letters).
-  { unfold ctrl_letters. apply filter_In. split; [|assumption]. apply zrange_In. lia. }
+  assert (Hrange : 32 <= k_code k <= 126) by (unfold ctrl_char, ctrl_letter, in_range in Hc; lia).
+  assert (Hin : In (k_code k) ctrl_chars).
+  { unfold ctrl_chars. apply filter_In. split; [|assumption]. apply zrange_In. lia. }
   unfold forward, term_update.
-  rewrite encode_ctrl; [|rewrite Hx, Hm0; reflexivity|rewrite Halt, Hm0; reflexivity|rewrite Hctl, Hm0; reflexivity|assumption|apply Hlow; assumption].
+  rewrite encode_ctrl; [|assumption|rewrite Hx, Hm0; reflexivity|rewrite Halt, Hm0; reflexivity|rewrite Hctl, Hm0; reflexivity|assumption].
   apply roundtrip_of_transfer. apply finite_transfer.
-  apply (table_check_use _ (fun c _ => [c - 96]) _ _ _ ctrl_all Hin Hr H56). rewrite Hm0. reflexivity.
+  apply (table_check_use _ (fun c _ => ctrl_bytes c) _ _ _ ctrl_all Hin Hr H56). rewrite Hm0. reflexivity.
+Qed.
+
+(* Ctrl + an ASCII character is written as the C0 code xterm sends for it *)
+Theorem ctrl_codes_xterm u k kp ck b : oracle_ok u -> mods_in_scope k = true -> chord_mods k = ModCtrl ->
+  xterm_ctrl_code (k_code k) = Some b -> encode_xterm u k kp ck = [b].
+Proof.
+  intros Ho Hsc Hm Hb. destruct (scope_split k Hsc) as [Hr H56]. destruct (mods_facts _ Hr H56) as (Hx & Hs2 & _ & Hctl & Halt).
+  unfold chord_mods in Hm.
+  assert (Hrange : 32 <= k_code k <= 126).
+  { unfold xterm_ctrl_code, in_range in Hb.
+    repeat match type of Hb with (if ?c then _ else _) = _ => destruct c eqn:?; [lia|] end. discriminate. }
+  rewrite encode_ctrl; [|assumption|rewrite Hx, Hm; reflexivity|rewrite Halt, Hm; reflexivity|rewrite Hctl, Hm; reflexivity|assumption].
+  pose proof ctrl_codes_table as T. rewrite forallb_forall in T.
+  specialize (T (k_code k) (zrange_In (k_code k) 95 32 ltac:(lia))). rewrite Hb in T.
+  apply zlist_eqb_eq. exact T.
 Qed.
 
 Lemma c0_roundtrip u seg k md : (forall r, seg [r] = [[r]]) -> oracle_ok u -> mods_in_scope k = true -> chord_c0 k = true ->
@@ -598,11 +639,13 @@ Lemma c0_roundtrip u seg k md : (forall r, seg [r] = [[r]]) -> oracle_ok u -> mo
 Proof.
   intros Hseg (Hu127 & H127 & _) Hsc Hp. destruct (scope_split k Hsc) as [Hr H56].
   destruct (mods_facts _ Hr H56) as (Hx & Hs2 & _ & Hctl & Halt).
-  unfold chord_c0, chord_mods in Hp. apply orb_true_iff in Hp. destruct Hp as [Hp|Hp].
+  unfold chord_c0, chord_mods in Hp. apply andb_true_iff in Hp. destruct Hp as [Hnt Hp].
+  assert (Ht : k_text k = []) by (unfold no_text in Hnt; destruct (k_text k); [reflexivity|discriminate]).
+  apply orb_true_iff in Hp. destruct Hp as [Hp|Hp].
   - apply andb_true_iff in Hp. destruct Hp as [Hm Hc].
     assert (Hm0 : Z.ldiff (k_mods k) 192 = 0) by lia.
     unfold forward, term_update.
-    rewrite encode_unmodified; [|lia|unfold KeyTab, KeyEnter, KeyEsc, KeyBackspace, MaxRune in *; lia].
+    rewrite encode_unmodified; [|lia|unfold KeyTab, KeyEnter, KeyEsc, KeyBackspace, MaxRune in *; lia|assumption].
     destruct (k_code k =? KeyBackspace) eqn:Eb.
     + (* Backspace is DEL, a printed character for the parser *)
       assert (Ec : k_code k = 127) by (unfold KeyBackspace in Eb; lia). rewrite Ec.
@@ -614,9 +657,9 @@ Proof.
       unfold utf8_enc. rewrite fmt_c_ascii by (unfold KeyTab, KeyEnter, KeyEsc in *; lia).
       apply roundtrip_of_transfer. apply finite_transfer.
       apply (table_check_use _ (fun c _ => [c]) _ _ _ c0_all Hin Hr H56). rewrite Hm0. reflexivity.
-  - repeat (apply andb_true_iff in Hp; destruct Hp as [Hp ?]).
+  - apply andb_true_iff in Hp. destruct Hp as [Hm Hc].
     assert (Hm0 : Z.ldiff (k_mods k) 192 = 1) by (unfold ModShift in *; lia).
-    assert (Hc : k_code k = KeyTab) by lia.
+    assert (Hc' : k_code k = KeyTab) by lia.
     unfold forward, term_update.
     rewrite encode_backtab; [|rewrite Hx, Hm0; reflexivity|assumption].
     apply roundtrip_of_transfer. apply finite_transfer.
@@ -648,9 +691,46 @@ Proof.
   - apply shift_roundtrip; assumption.
 Qed.
 
+(* any key that produced one printable code point with at most Shift held: the text arrives *)
+Theorem key_forward_textchord u seg k md : (forall r, seg [r] = [[r]]) -> oracle_ok u ->
+  mods_in_scope k = true -> chord_text k = true -> textchord_ok u k (forward u seg md (TKey k)) = true.
+Proof.
+  intros Hseg (_ & H127 & _) Hsc Hp.
+  destruct (scope_split k Hsc) as [Hr H56]. destruct (mods_facts _ Hr H56) as (Hx & Hs2 & _ & Hctl & Halt).
+  unfold chord_text, chord_mods in Hp.
+  apply andb_true_iff in Hp. destruct Hp as [Hp Htx].
+  apply andb_true_iff in Hp. destruct Hp as [Hm Hcode].
+  destruct (k_text k) as [|t [|? ?]] eqn:Ht; try discriminate.
+  apply andb_true_iff in Htx. destruct Htx as [Hpt Hne].
+  unfold printable_rune in Hcode, Hpt.
+  apply andb_true_iff in Hcode. destruct Hcode as [Hc32 Hcv].
+  apply andb_true_iff in Hpt. destruct Hpt as [Ht32 Htv].
+  assert (Hcr : 32 <= k_code k <= MaxRune) by (unfold rune_valid, MaxRune in *; lia).
+  assert (Hbytes : encode_xterm u k (m_deckpam md) (m_decckm md) = utf8_enc t).
+  { apply orb_true_iff in Hm. destruct Hm as [Hm|Hm].
+    - assert (Hm0 : Z.ldiff (k_mods k) 192 = 0) by lia.
+      rewrite encode_unmodified_text; [|lia|lia|rewrite Ht; discriminate]. rewrite Ht. apply utf8_single.
+    - assert (Hm0 : Z.ldiff (k_mods k) 192 = 1) by (unfold ModShift in *; lia).
+      apply encode_chord_shift; [rewrite Hx, Hm0; reflexivity|rewrite Hctl, Hm0; reflexivity|rewrite Halt, Hm0; reflexivity|assumption|exact Ht]. }
+  unfold forward, term_update. rewrite Hbytes.
+  rewrite host_read_printed; [|apply Hseg|lia|assumption].
+  rewrite decode_printed; [|assumption|lia].
+  unfold textchord_ok. rewrite Ht.
+  destruct (u_upper u t) eqn:Eu; cbn [k_text k_event].
+  - rewrite matches_rule3; [|cbn [k_shifted]; lia|cbn [k_mods]; vm_compute; reflexivity].
+    rewrite zlist_eqb_refl. reflexivity.
+  - rewrite matches_rule1; [|cbn [k_code]; lia|cbn [k_mods]; vm_compute; reflexivity].
+    rewrite zlist_eqb_refl. reflexivity.
+Qed.
+
+(* the recorded finding keypad-mode-ignored, on its corpus case: keypad 0 is written as "0" in both keypad modes *)
+Lemma keypad_mode_refuted :
+  exists k, keypad_guard k = true /\ encode_xterm ascii_uni k true false = encode_xterm ascii_uni k false false.
+Proof. exists (mkKey [48] KeyKeyPad0 0 0 0 0). split; vm_compute; reflexivity. Qed.
+
 (* ================= the child's cursor-key and keypad modes ================= *)
 Lemma cursor_plain c x kp : lookup1 cursor_finals c = Some x ->
-  encode_plain c kp true = Some [27; 79; x] /\ encode_plain c kp false = Some [27; 91; x].
+  encode_plain_maps c kp true = Some [27; 79; x] /\ encode_plain_maps c kp false = Some [27; 91; x].
 Proof.
   unfold lookup1, cursor_finals. cbn [find fst snd].
   repeat match goal with
@@ -664,7 +744,7 @@ Theorem cursor_mode_selects u k kp x : xterm_mods (k_mods k) = 0 -> lookup1 curs
   encode_xterm u k kp true = [27; 79; x] /\ encode_xterm u k kp false = [27; 91; x].
 Proof.
   intros Hm Hl. destruct (cursor_plain _ _ kp Hl) as [A B].
-  unfold encode_xterm. cbv zeta. rewrite Hm. cbn [Z.eqb]. rewrite A, B. split; reflexivity.
+  unfold encode_xterm. cbv zeta. rewrite Hm. cbn [Z.eqb]. unfold encode_plain. rewrite A, B. split; reflexivity.
 Qed.
 
 Lemma lookup_str_in t c v : lookup_str t c = Some v -> In c (map fst t).
@@ -701,13 +781,13 @@ Theorem cursor_mode_only_cursor u k kp :
 Proof.
   intros [Hm|Hl]; unfold encode_xterm; cbv zeta.
   - replace (xterm_mods (k_mods k) =? 0) with false by lia. reflexivity.
-  - destruct cursor_tables_keys as [T1 T2]. unfold encode_plain.
+  - destruct cursor_tables_keys as [T1 T2]. unfold encode_plain, encode_plain_maps.
     rewrite (lookup_str_other _ _ T1 Hl), (lookup_str_other _ _ T2 Hl). reflexivity.
 Qed.
 
 (* DECKPAM selects nothing: the two keypad tables are equal *)
 Theorem keypad_mode_selects_nothing u k ck : encode_xterm u k true ck = encode_xterm u k false ck.
-Proof. unfold encode_xterm, encode_plain. change applicationKeymap with numericKeymap. reflexivity. Qed.
+Proof. unfold encode_xterm, encode_plain, encode_plain_maps. change applicationKeymap with numericKeymap. reflexivity. Qed.
 
 (* ================= paste brackets ================= *)
 Theorem paste_forward u seg md :
@@ -988,7 +1068,5 @@ Proof.
     cbn in Hu |- *; try discriminate; unfold in_range in *; lia.
   - intros c Hc. unfold ascii_uni, uni_of. cbn [u_lower]. unfold info_of.
     replace (in_range c 0 127) with true by (unfold in_range; lia). unfold ascii_info.
-    replace (in_range c 65 90) with false by (unfold in_range; lia).
-    replace (in_range c 97 122) with true by (unfold in_range; lia).
-    destruct (in_range c 32 126); reflexivity.
+    destruct (in_range c 65 90); destruct (in_range c 97 122); destruct (in_range c 32 126); reflexivity.
 Qed.
